@@ -2,7 +2,7 @@
    around a match and the newline / encoding handling of open() are preserved.
    Statements only; the proofs are in Proofs/RewriteFacts.v. *)
 From Coq Require Import List Bool NArith Arith.
-From BV Require Import Lib.PyStr Gen.Tables Model.Rewrite Model.Files Proofs.RewriteFacts.
+From BV Require Import Lib.PyStr Gen.Tables Model.Rewrite Model.Files Proofs.RewriteFacts Proofs.OpenCallsFacts.
 Import ListNotations.
 
 Theorem C04_detect_split_join : forall content,
